@@ -11,6 +11,7 @@
 #include "harness.h"
 #include "json_cuts.h"
 int64_t w_json_parse(uint8_t* in, uint64_t n, uint32_t strict, uint64_t* val, uint8_t* sout, uint64_t cap);
+int64_t w_json_parse_elem(uint8_t* in, uint64_t n, uint32_t strict, uint64_t idx, uint8_t* key, uint64_t keylen, uint64_t* topsize, uint64_t* val, uint8_t* sout, uint64_t cap);
 int64_t w_json_parse_reader(uint8_t* in, uint64_t n, uint32_t strict, uint64_t* val, uint8_t* sout, uint64_t cap, uint64_t* where);
 
 static uint8_t ws(void) { uint8_t c = in_u8(); ASSUME(c == ' ' || c == '\t' || c == '\r' || c == '\n'); return c; }
@@ -89,5 +90,37 @@ void harness(void) {
   ASSERT(r == -20, "the string entry point rejects trailing non-whitespace with parse_error");
   r = w_json_parse_reader(in, n, STRICT, &val, sout, 16, &where); OBS(r);
   ASSERT(r == 2 && val == 7 && where == 1, "the reader entry point returns the value and stops right after it");
+#elif TPL == 30                   /* "1e+" D : explicit plus sign in the exponent */
+  DOC("1e+"); uint8_t d = dig(); in[n++] = d;
+  r = w_json_parse(in, n, STRICT, &val, sout, 16); OBS(r);
+  double ref = 1.0; for (int i = 0; i < d - '0'; i++) ref *= 10;
+  ASSERT(r == 3 && dbl(val) == ref, "1e+D is accepted as the float 10^D");
+#elif TPL == 31                   /* "-2.5E+" D */
+  DOC("-2.5E+"); uint8_t d = dig(); in[n++] = d;
+  r = w_json_parse(in, n, STRICT, &val, sout, 16); OBS(r);
+  double ref = 2.0; ref += 5 * 0.1; for (int i = 0; i < d - '0'; i++) ref *= 10;
+  ASSERT(r == 3 && dbl(val) == -ref, "-2.5E+D is accepted as the float -2.5 * 10^D");
+#elif TPL == 32                   /* "7e+2" WS, reader entry point consumes the whole numeral */
+  DOC("7e+2"); in[n++] = ws();
+  r = w_json_parse(in, n, STRICT, &val, sout, 16); OBS(r);
+  { double ref = 7.0; ref *= 10; ref *= 10; ASSERT(r == 3 && dbl(val) == ref, "7e+2 is accepted as the float 700"); }
+  r = w_json_parse_reader(in, n, STRICT, &val, sout, 16, &where); OBS(r);
+  ASSERT(r == 3 && where == 4, "the reader entry point consumes the whole numeral 7e+2");
+#elif TPL >= 33 && TPL <= 37      /* dictionaries with one member; the strict flag must reach the member value */
+  /* 33 {"a":7}  34 {"a":t}  35 {"a":0x1C}  36 {"a":[1,]}  37 {"a":7,}   (+ optional trailing WS hole) */
+  DOC(TPL == 33 ? "{\"a\":7}" : TPL == 34 ? "{\"a\":t}" : TPL == 35 ? "{\"a\":0x1C}" : TPL == 36 ? "{\"a\":[1,]}" : "{\"a\":7,}");
+#if HOLE
+  in[n++] = ws();
+#endif
+  uint64_t topsize = 99; uint8_t key[1] = {'a'};
+  r = w_json_parse_elem(in, n, STRICT, 0, key, 1, &topsize, &val, sout, 16); OBS(r);
+  if (TPL != 33 && STRICT) ASSERT(REJECTED(r), "strict mode rejects an extension below a dictionary value (one-character constant, hex integer, trailing comma)");
+  else {
+    ASSERT(topsize == 1, "the dictionary has one member");
+    if (TPL == 33 || TPL == 37) ASSERT(r == 2 && val == 7, "member a is the int 7");
+    if (TPL == 34) ASSERT(r == 1 && val == 1, "member a is true");
+    if (TPL == 35) ASSERT(r == 2 && val == 0x1C, "member a is the int 0x1C");
+    if (TPL == 36) ASSERT(r == 5 && val == 1, "member a is a list with one element");
+  }
 #endif
 }
